@@ -9,6 +9,7 @@ package main
 
 import (
 	"fmt"
+	"math"
 	"os"
 	"path/filepath"
 	"sort"
@@ -66,21 +67,7 @@ func walkFunctions(m *host.Machine) []libFn {
 		}
 	}
 	// values only obtainable by a call: runtime contexts and their resource records
-	o := m.Exec("walk", `local out = {}
-if runtime then
-  local c = runtime.context()
-  out.ctx = c
-  out.res = c.used
-  out.lim = c.kill
-end
-out.co = coroutine.create(function() end)
-out.gm = string.gmatch("a", "a")
-out.wrap = coroutine.wrap(function() end)
-out.lines = io.lines and select(2, pcall(io.lines, "a"))
-return out`, nil, nil)
-	_ = o
-	if o.Status == "ok" {
-		// re-run to get the actual table value
+	{
 		term := rt.NewTerminationWith(nil, 1, false)
 		clos, err := r.CompileAndLoadLuaChunk("walk", []byte(`local out = {}
 if runtime then
@@ -225,10 +212,8 @@ func buildPool(m *host.Machine, self rt.Value) ([]rt.Value, string) {
 	for i := int64(1); i <= 3; i++ {
 		seq.Set(rt.IntValue(i), rt.IntValue(i*10))
 	}
-	inf := rt.FloatValue(1e308 * 10)
-	nan := rt.FloatValue(float64(0) * 1e308 * 10 * 0)
-	nanv := inf.AsFloat() - inf.AsFloat()
-	_ = nan
+	inf := rt.FloatValue(math.Inf(1))
+	nanv := math.NaN()
 	return []rt.Value{
 		rt.NilValue, rt.BoolValue(true), rt.IntValue(0), rt.IntValue(1), rt.IntValue(-1),
 		rt.IntValue(1<<63 - 1), rt.IntValue(-1 << 63), rt.FloatValue(0.5), rt.FloatValue(1 << 53), inf, rt.FloatValue(nanv),
